@@ -61,7 +61,7 @@ def programs():
         {"k": "apply", "n": 9, "fn": "truthy", "src": C(0)}]}}))
     # a Map over several dotted keys of one section: every assignment overrides all of them (siblings are merged, not replaced)
     add("map-sibling-section-keys", prog({"k": "apply", "n": 9, "fn": "f1", "src": {"k": "map", "body": {"k": "tuple", "items": [O("S.X", dk="const", dv="dx"), O("S.Y", dk="const", dv="dy"), O("S")]},
-                                          "iters": [["S.X", {"k": "list", "items": [C(1), C(2)]}], ["A", {"k": "list", "items": [C("a")]}], ["S.Y", {"k": "list", "items": [C(10)]}]]}}))
+                                          "iters": [["S.X", {"k": "list", "items": [C(1), C(2)]}], ["A", {"k": "list", "items": [C("a")]}], ["S.Y", {"k": "list", "items": [C(10), C(20), C(30)]}]]}}))
     # a Map that pre-sets only PART of a section while its body reads the whole section, under a memoising dataset:
     # the members the caller alone provides (S.Y) are part of every element's value
     add("map-presets-part-of-a-section", prog({"k": "tuple", "items": [DS(1), DS(2)]},
@@ -94,6 +94,11 @@ def programs():
     add("dataset-class-nested-reported-keys", prog({"k": "tuple", "items": [
         {"k": "dc", "n": 61, "members": [["m0", {"k": "tmpl", "text": "{L.0}", "params": []}], ["m1", O("L", dk="const", dv=["dflt"])], ["_m2", O("S", dk="const", dv={})], ["m3", O("S.X", dk="const", dv=0)]], "base": 2, "base_decorated": True},
         DS(1)]}, d1={"args": [["c", {"k": "dc", "n": 62, "members": [["m0", O("L.1", dk="const", dv=None)], ["_m1", O("L", dk="const", dv=[])]]}]]}))
+    # a Map over several keys where a LATER key's iterable can be walked only once (an Iter, another Map's values): the
+    # product still has every combination
+    add("map-one-shot-iterables", prog({"k": "apply", "n": 71, "fn": "f1", "src": {"k": "map", "body": {"k": "tuple", "items": [O("A", dk="const", dv=0), O("B", dk="const", dv=0), O("C", dk="const", dv=0)]},
+                                        "iters": [["A", C([1, 2])], ["B", {"k": "iter", "items": [C("x"), O("E", dk="const", dv="y")]}],
+                                                  ["C", {"k": "map", "body": O("T.X", dk="const", dv="t"), "iters": [["T.X", C([7, 8])]], "values": True}]]}}))
     # a key that is present with a null value is PRESENT: the default (and what the default reads) plays no part
     add("null-valued-option", prog({"k": "tuple", "items": [DS(1), {"k": "cached", "spec": O("C", dk="tmpl", dv="{S.X} t")}]},
                                    d1={"args": [["a", O("A", dk="spec", dv=O("B"))], ["c", O("E", dk="spec", dv=DS(2))]]},
@@ -287,6 +292,9 @@ def dictionaries():
         {"D": "{A}", "A": "x"},
         {"D": "{A}", "A": "y", "B": 5, "C": 6},
         {"D": "{S.X}", "E": "{A}", "A": "x", "S": {"X": "y"}},
+        {"C": [0]},
+        {"C": [1, 2], "B": 1},
+        {"C": [0], "B": 1},
         {"L": [1, 2]},
         {"L": ["x", "y"]},
         {"L": []},
